@@ -257,6 +257,44 @@ fn c09_o4_expired_reply_rejected() {
     std::mem::forget(s);
 }
 
+//@ ob: C09.O5
+//@ tier: quick
+//@ cap: 1500
+//@ standins: tracing
+//@ also: C06
+//@ desc: expiry with the adaptive timeout and the REAL round-trip estimator: from a state with a non-trivial RTT estimate and deviation (what earlier slow replies leave), a reply with the right tid from the right address is accepted iff it arrives before estimated_rtt + 4 * deviation_rtt as in force when it arrives -- exactly when socket.inflight(tid) still reported the request in flight; the reply's own RTT sample cannot extend its own deadline
+//@ bounds: estimated_rtt in {500 ms, 1 s, 2 s}, deviation_rtt in {0, 250 ms, 1 s} (symbolic choice), reply delay dt whole seconds 0..=20; 1 outstanding request; unwind 6
+//@ stubs: std::time::Instant::now -> symbolic whole-second clock (update_rtt_estimates is the real f64 code)
+//@ functions: KrpcSocket::is_expected_response, KrpcSocket::inflight, InflightRequests::{add,get,remove,request_timeout,update_rtt_estimates}, Duration::{mul_f64,as_secs_f64,from_secs_f64}
+#[kani::proof]
+#[kani::stub(std::time::Instant::now, clock::now)]
+#[kani::unwind(6)]
+fn c09_o5_adaptive_timeout_expiry() {
+    clock::set(0);
+    let mut s = fake_socket(false);
+    let e: u8 = kani::any();
+    let d: u8 = kani::any();
+    s.inflight_requests.estimated_rtt = Duration::from_millis(match e { 0 => 500, 1 => 1000, _ => 2000 });
+    s.inflight_requests.deviation_rtt = Duration::from_millis(match d { 0 => 0, 1 => 250, _ => 1000 });
+    let to = SocketAddrV4::new([10, 0, 0, 1].into(), 1);
+    let tid = s.inflight_requests.add(to);
+    let timeout0 = s.inflight_requests.request_timeout();
+    let dt: u64 = kani::any();
+    kani::assume(dt <= 20);
+    clock::set(dt);
+    let before = s.inflight(&tid);
+    let r = s.is_expected_response(&resp(tid), &to);
+    let in_time = Duration::from_secs(dt) < timeout0;
+    assert!(before == in_time, "C06.O1 request is in flight exactly until its timeout");
+    assert!(r == in_time, "C09.O4 reply accepted iff it arrives before the request expired");
+    let again = s.is_expected_response(&resp(tid), &to);
+    assert!(!again, "C09.O3 reply consumed at most once");
+    kani::cover!(r && dt >= 2);
+    kani::cover!(!r && dt == 1);
+    kani::cover!(!r && dt >= 6);
+    std::mem::forget(s);
+}
+
 //@ ob: C09.K1
 //@ tier: quick
 //@ cap: 900
